@@ -326,7 +326,9 @@ def case_approx(log, n, defaults=False, signed=False):
 
     log.encode(st.EKO.approx, st.EKO.__iter__)
     decide = iofs.Decider(log)
-    RT, AT = Fraction(1e-6), Fraction(1e-10)
+    from symx.poly import float_to_fraction
+
+    RT, AT = float_to_fraction(1e-6), float_to_fraction(1e-10)  # the engine's reading of the default arguments: 1/10^6, 1/10^10
 
     def run():
         fs = FS()
